@@ -99,6 +99,9 @@ impl<S: RecvStream, B> FrameStream<S, B> {
 //@sig
         requires old(self).stream.wf(),
         ensures final(self).stream.wf(), final(self).remaining_data == old(self).remaining_data, final(self).decoder == old(self).decoder, final(self).taken == old(self).taken,
+            // what is unread afterwards is what was unread before followed by the bytes that arrived in this call
+            final(self).unread() == final(self).delivered().skip(old(self).consumed()),
+            old(self).decoder.memo_ok(old(self).unread()) ==> final(self).decoder.memo_ok(final(self).unread()),
             final(self).consumed() == old(self).consumed(), old(self).delivered().is_prefix_of(final(self).delivered()),
             final(self).stream.stream.stops() == old(self).stream.stream.stops(),
             old(self).stream.eos ==> final(self).stream.eos,
@@ -112,6 +115,27 @@ impl<S: RecvStream, B> FrameStream<S, B> {
                 Poll::Ready(Err(e)) => (e matches FrameStreamError::Quic(_)) && final(self).unread() == old(self).unread() && final(self).stream.eos == old(self).stream.eos
                     && final(self).stream.stream.pendings() == old(self).stream.stream.pendings(),
             },
+//@on R25
+//@at "let __vp_m1 = " after
+        proof {
+            let t = self.delivered().skip(old(self).delivered().len() as int);
+            if self.unread() != old(self).unread() {
+                assert(self.delivered() =~= old(self).delivered() + t);
+                assert(self.delivered().skip(old(self).consumed()) =~= old(self).unread() + t);
+                if let Some(min) = self.decoder.expected {
+                    if old(self).decoder.memo_ok(old(self).unread()) {
+                        assert forall|u: Seq<u8>| #![trigger (self.unread() + u)] (self.unread() + u).len() < min implies head_needs_more(self.unread() + u) by {
+                            assert(self.unread() + u =~= old(self).unread() + (t + u));
+                        }
+                    }
+                }
+            } else {
+                assert(self.delivered() =~= old(self).delivered());
+                assert(self.delivered().skip(old(self).consumed()) =~= self.unread());
+            }
+        }
+//@entry
+        proof { assert(self.delivered().skip(self.consumed()) =~= self.unread()); }
 //@end
 
 //@extract h3/src/frame.rs :: impl FrameStream<S, B> :: fn poll_next
@@ -253,29 +277,6 @@ impl<S: RecvStream, B> FrameStream<S, B> {
 //@entry
         broadcast use lemma_skip_skip;
         proof { assert(self.since(&*old(self)) =~= self.unread()); }
-//@at "let data = " before
-        let ghost mid = *self;
-        proof {
-            let t = self.delivered().skip(old(self).delivered().len() as int);
-            if self.unread() != old(self).unread() {
-                assert(self.delivered() =~= old(self).delivered() + t);
-                assert(self.since(&*old(self)) =~= old(self).unread() + t);
-                if let Some(min) = self.decoder.expected {
-                    assert forall|u: Seq<u8>| #![trigger (self.unread() + u)] (self.unread() + u).len() < min implies head_needs_more(self.unread() + u) by {
-                        assert(self.unread() + u =~= old(self).unread() + (t + u));
-                    }
-                }
-            } else { assert(self.delivered() =~= old(self).delivered()); }
-            assert(self.since(&*old(self)) =~= self.unread());
-        }
-//@at "match (data, end)" before
-        proof {
-            if data is Some {
-                let dl = data->Some_0@.len() as int;
-                assert(self.unread() =~= mid.unread().skip(dl));
-                assert(data->Some_0@ =~= mid.unread().take(dl));
-            }
-        }
 //@end
 //@extract h3/src/frame.rs :: impl FrameStream<S, B> :: fn has_data
 //@external_body_if ASSUME_UNIT_frames
@@ -300,5 +301,26 @@ impl<S, B> FrameStream<S, B> {
 //@ret r
 //@sig
         ensures r == self.stream, // [C19.into_inner] the buffered bytes that followed the header are handed on intact
+//@end
+}
+
+// ---- splitting an accepted bidirectional stream (WebTransport, C19): what was already buffered goes to the receive half
+pub trait BidiStream<B>: Sized {
+    type SendStream;
+    type RecvStream;
+    fn split(self) -> (Self::SendStream, Self::RecvStream);
+}
+impl<S, B> BidiStream<B> for BufRecvStream<S, B>
+where
+    S: BidiStream<B>,
+{
+    type SendStream = BufRecvStream<S::SendStream, B>;
+    type RecvStream = BufRecvStream<S::RecvStream, B>;
+//@extract h3/src/stream.rs :: impl BidiStream<B> for BufRecvStream<S, B> :: fn split
+//@external_body_if ASSUME_UNIT_frames
+//@tag C19 C01
+//@ret r
+//@sig
+        ensures r.1.buf == self.buf, r.1.eos == self.eos, // [C19.split.buffer] bytes that followed the stream header are not lost
 //@end
 }
